@@ -4,14 +4,45 @@
 open Model
 open Conv
 
+(* faster hex conversions than Conv's (megabyte bodies): the 256 byte values are shared
+   instead of being rebuilt per byte *)
+let ntab : n array = Array.init 256 n_of_int
+let hextab : string array = Array.init 256 (Printf.sprintf "%02x")
+let hexval (c : char) : int =
+  match c with
+  | '0' .. '9' -> Char.code c - 48
+  | 'a' .. 'f' -> Char.code c - 87
+  | 'A' .. 'F' -> Char.code c - 55
+  | _ -> failwith "bad hex digit"
+let bytes_of_hex (s : string) : n list =
+  if s = "-" || s = "" then []
+  else begin
+    let len = String.length s / 2 in
+    let rec go i acc =
+      if i < 0 then acc
+      else go (i - 1) (ntab.(hexval s.[2 * i] * 16 + hexval s.[2 * i + 1]) :: acc) in
+    go (len - 1) []
+  end
+let rec int_of_pos (p : positive) : int =
+  match p with XH -> 1 | XO q -> 2 * int_of_pos q | XI q -> 2 * int_of_pos q + 1
+let int_of_byte (x : n) : int = match x with N0 -> 0 | Npos p -> int_of_pos p
+let hex_of_bytes (l : n list) : string =
+  if l = [] then "-"
+  else begin
+    let b = Buffer.create 1024 in
+    List.iter (fun x -> Buffer.add_string b hextab.(int_of_byte x land 255)) l;
+    Buffer.contents b
+  end
+
 let tbl : (string, string) Hashtbl.t = Hashtbl.create 1024
 let misses : (string, unit) Hashtbl.t = Hashtbl.create 64
+let missed = ref false   (* set by every unanswered query *)
 
 let ask (kind : string) (b : n list) : string option =
   let q = kind ^ " " ^ hex_of_bytes b in
   match Hashtbl.find_opt tbl q with
   | Some a -> Some a
-  | None -> Hashtbl.replace misses q (); None
+  | None -> Hashtbl.replace misses q (); missed := true; None
 
 (* net/url.Parse + http.NewRequest *)
 let url_parse (u : n list) : (n list * n list) option =
@@ -48,19 +79,35 @@ let run_cases_oracle (f : string -> string -> string * string * bool) =
   let cases = read_lines Sys.argv.(1) in
   let obs = if Array.length Sys.argv > 2 then read_lines Sys.argv.(2) else [] in
   let obs = Array.of_list obs in
-  let eval () =
-    List.mapi (fun i c ->
-      let o = if i < Array.length obs then obs.(i) else "" in
-      try f c o with e -> ("model-exception:" ^ Printexc.to_string e, "BAD:model-exception", false)) cases in
+  (* a case is evaluated again only while it still misses an oracle answer *)
+  let cases_a = Array.of_list cases in
+  let res : (string * string * bool) option array = Array.make (Array.length cases_a) None in
+  let eval_pending () =
+    Array.iteri (fun i c ->
+      if res.(i) = None then begin
+        missed := false;
+        let o = if i < Array.length obs then obs.(i) else "" in
+        let r = (try f c o with e -> ("model-exception:" ^ Printexc.to_string e, "BAD:model-exception", false)) in
+        if not !missed then res.(i) <- Some r
+      end) cases_a in
   let rec round k =
-    let res = eval () in
-    if k < 10 && resolve Sys.argv.(1) then round (k + 1) else res in
+    eval_pending ();
+    if k < 10 && resolve Sys.argv.(1) then round (k + 1)
+    else begin
+      (* whatever still misses an answer is evaluated as it is *)
+      Array.iteri (fun i c ->
+        if res.(i) = None then begin
+          let o = if i < Array.length obs then obs.(i) else "" in
+          res.(i) <- Some (try f c o with e -> ("model-exception:" ^ Printexc.to_string e, "BAD:model-exception", false))
+        end) cases_a;
+      Array.to_list (Array.map (function Some r -> r | None -> ("", "BAD:unevaluated", false)) res)
+    end in
   List.iter (fun (p, v, nt) ->
     print_string p; print_char '\t'; print_string v; print_char '\t';
     print_string (if nt then "1" else "0"); print_newline ()) (round 0)
 
 (* ---------- printing ---------- *)
-let cmp_bytes (a : n list) (b : n list) = compare (List.map int_of_n a) (List.map int_of_n b)
+let cmp_bytes (a : n list) (b : n list) = compare (List.map int_of_byte a) (List.map int_of_byte b)
 
 let print_req (r : reqsum) : string =
   let hs = List.sort (fun (a, _) (b, _) -> cmp_bytes a b) r.r_headers in
